@@ -3,6 +3,7 @@
 (* scenario per transition, as for the other models).                        *)
 EXTENDS Registry, Json
 
+CONSTANTS RmPool, RmKeyed   \* the types Remove may name / whether RemoveKeyed is issued (restricted for deeper histories)
 CONSTANTS MaxOps, Mode, EmitOn, AddPool   \* AddPool: the items Add may use in mode "calls" (all, or a subset for deeper histories)
 \*      \* Mode: "calls" (Add/Remove/Build histories) or "modules" (one module tree, then Build)
 
@@ -62,11 +63,11 @@ Room == Len(hist) < MaxOps
 
 Add == Room /\ Mode = "calls" /\ \E i \in AddPool :
           Do([ev |-> "add", item |-> i], [op |-> "add", item |-> i])
-Remove == Room /\ Mode = "calls" /\ \E t \in RmTypes :
+Remove == Room /\ Mode = "calls" /\ \E t \in RmTypes \cap RmPool :
           Do([ev |-> "remove", t |-> t], [op |-> "remove", t |-> t])
 \* keys: the name "k", and the INTEGER 1 (written "#1": nothing is registered under it - positions inside a group
 \* are not keys)
-RemoveKeyed == Room /\ Mode = "calls" /\ \E t \in {"S0", "S1", "I0"}, k \in {"k", "#1"} :
+RemoveKeyed == Room /\ Mode = "calls" /\ RmKeyed /\ \E t \in {"S0", "S1", "I0"} \cap RmPool, k \in {"k", "#1"} :
           Do([ev |-> "removekeyed", t |-> t, k |-> k], [op |-> "removekeyed", t |-> t, k |-> k])
 LastOp == IF hist = <<>> THEN "-" ELSE hist[Len(hist)].op
 Build == Room /\ Mode = "calls" /\ Len(rs.snaps) < 2 /\ LastOp # "build"
@@ -96,6 +97,9 @@ Spec == Init /\ [][Next]_vars
 \* in module mode the follow-up steps depend on the tree that was applied (and on whether it failed), not only on
 \* what it left behind: every history is kept
 View == IF Mode = "modules" THEN <<rs.live, rs.snaps, hist>> ELSE <<rs.live, rs.snaps, Len(hist)>>
+\* every history kept (for small pools): what the implementation numbers, caches or prunes along the way is not part of
+\* the reference state
+ViewH == <<rs.live, rs.snaps, hist>>
 Emit == IF EmitOn THEN PrintT(<<"SCN", ToJson([items |-> Items, ops |-> hist'])>>) ELSE TRUE
 
 \* ---- design properties -------------------------------------------------------------------------
